@@ -3,7 +3,10 @@
 // Op line:  proc <registered types> <env,env,...>
 //
 //	one channel, a sequence of envelopes handed to channel.processContainerMessage.
-//	env = outerhex/type/payloadhex/seqno/senderhex/idfact      (~ = empty bytes)
+//	env = outerhex/type/payloadhex/seqno/senderhex/idfact[/relayhex]     (~ = empty bytes)
+//	with the 7th field the envelope is marshalled and goes through processPubsubMessage as a
+//	pubsub message signed by `outer` (GetFrom) that arrived from neighbour `relay`
+//	(ReceivedFrom); the relay must not matter.
 //	idfact = what the libp2p LIBRARY (not keep-core) makes of the sender bytes:
 //	         E (not a public key)  |  <keytype>|<peer id hex>|<operator key hex or ~>
 //	It is the model's parameter `decodeIdentity/peerIdOf/toOperatorKey` (library behaviour is
@@ -297,8 +300,26 @@ func gen(r *hx.Rng, n int, tier string) []string {
 					}
 				}
 			}
-			envs = append(envs, fmt.Sprintf("%s/%s/%s/%d/%s/%s",
-				hexOf(outer), typ, hexOf(payload), seq, hexOf(sender), idFact(sender)))
+			rec := fmt.Sprintf("%s/%s/%s/%d/%s/%s",
+				hexOf(outer), typ, hexOf(payload), seq, hexOf(sender), idFact(sender))
+			if r.Chance(1, 2) { // through processPubsubMessage, as received from some neighbour
+				relay := outer
+				switch r.Intn(4) {
+				case 0: // relayed by a third peer
+					relay = peerIDOf(secpKey(r))
+				case 1: // received from the peer the inner identity names
+					var pbIdentity pb.Identity
+					if proto.Unmarshal(sender, &pbIdentity) == nil {
+						if pub, err := libp2pcrypto.UnmarshalPublicKey(pbIdentity.PubKey); err == nil {
+							relay = peerIDOf(pub)
+						}
+					}
+				case 2:
+					relay = peerIDOf(hx.Pick(r, pool))
+				}
+				rec += "/" + hexOf(relay)
+			}
+			envs = append(envs, rec)
 			if faults > 0 && r.Chance(1, 2) {
 				// rejected-then-valid: an honest message of the same type right behind, setting
 				// a single field (state of the rejected envelope must not show up in it)
@@ -346,11 +367,13 @@ func exec(op string) (string, string) {
 		outer, payload, sender []byte
 		typ                    string
 		seq                    uint64
+		pubsub                 bool
+		relay                  []byte
 	}
 	var envs []env
 	for _, e := range hx.SplitList(f[2]) {
 		p := strings.Split(e, "/")
-		if len(p) != 6 {
+		if len(p) != 6 && len(p) != 7 {
 			return "bad-op", "bad"
 		}
 		outer, ok1 := unhex(p[0])
@@ -360,15 +383,37 @@ func exec(op string) (string, string) {
 		if !ok1 || !ok2 || !ok3 || err != nil {
 			return "bad-op", "bad"
 		}
-		envs = append(envs, env{outer, payload, sender, p[1], seq})
+		en := env{outer: outer, payload: payload, sender: sender, typ: p[1], seq: seq}
+		if len(p) == 7 {
+			relay, ok := unhex(p[6])
+			if !ok {
+				return "bad-op", "bad"
+			}
+			en.pubsub, en.relay = true, relay
+		}
+		envs = append(envs, en)
 	}
 	ch := libp2p.VerifC18NewChannel(unmarshalers...)
 	tags := map[string]bool{}
 	var out []string
 	for _, e := range envs {
-		delivered, err := ch.Process(peer.ID(e.outer), &pb.BroadcastNetworkMessage{
+		container := &pb.BroadcastNetworkMessage{
 			Sender: e.sender, Payload: e.payload, Type: []byte(e.typ), SequenceNumber: e.seq,
-		})
+		}
+		var delivered []net.Message
+		var err error
+		if e.pubsub {
+			data, merr := proto.Marshal(container)
+			if merr != nil {
+				return "PANIC marshal " + merr.Error(), "bad"
+			}
+			delivered, err = ch.ProcessPubsub(peer.ID(e.outer), peer.ID(e.relay), data)
+			if string(e.relay) != string(e.outer) {
+				tags["relayed"] = true
+			}
+		} else {
+			delivered, err = ch.Process(peer.ID(e.outer), container)
+		}
 		switch {
 		case err != nil && len(delivered) == 0:
 			c := classify(err)
@@ -392,7 +437,7 @@ func exec(op string) (string, string) {
 		}
 	}
 	var ts []string
-	for _, t := range []string{"delivered", "type", "payload", "identity", "mismatch", "keytype", "odd"} {
+	for _, t := range []string{"relayed", "delivered", "type", "payload", "identity", "mismatch", "keytype", "odd"} {
 		if tags[t] {
 			ts = append(ts, t)
 		}
